@@ -3,7 +3,7 @@ import RgVerif.Spec.Grep
 /-
 Wire format shared by the searcher properties (C03, C16, C13, C01-searcher).
 
-  cfg     (cfg (lt lf|crlf|nul|b<dec>) (inv 0|1) (a N) (b N) (pt 0|1) (ln 0|1) (son 0|1) (ml 0|1))
+  cfg     (cfg (lt lf|crlf|nul|b<dec>) (inv 0|1) (a N) (b N) (pt 0|1) (ln 0|1) (son 0|1) (ml 0|1) [(bin none|quit N|convert N)])
   matcher (lit <needle-hex> (term -|<lt>) (nm -|<hex of byte set>) (cand -|<hex>))
             "haystack contains needle": find_at = first occurrence at or after `at`; other methods are the
             trait defaults, except find_candidate_line = Candidate(start of first occurrence of <cand>) when given
@@ -32,6 +32,14 @@ def parseOptLT : Sx → Option (Option LineTerm)
   | .atom "-" => some none
   | x => (parseLT x).map some
 
+/-- optional `(bin none | quit <byte> | convert <byte>)`; absent = none -/
+def parseBin : Option (List Sx) → Option BinaryDetection
+  | none => some .none
+  | some [.atom "none"] => some .none
+  | some [.atom "quit", b] => (b.nat?).map BinaryDetection.quit
+  | some [.atom "convert", b] => (b.nat?).map BinaryDetection.convert
+  | _ => none
+
 def parseCfg : Sx → Option Config
   | .list (.atom "cfg" :: fs) => do
     let lt ← Sx.field1 fs "lt" >>= parseLT
@@ -42,8 +50,9 @@ def parseCfg : Sx → Option Config
     let ln ← Sx.field1 fs "ln" >>= Sx.bool?
     let son ← Sx.field1 fs "son" >>= Sx.bool?
     let ml ← Sx.field1 fs "ml" >>= Sx.bool?
+    let bin ← parseBin (Sx.field fs "bin")
     pure { lineTerm := lt, invertMatch := inv, afterContext := a, beforeContext := b, passthru := pt
-         , lineNumber := ln, stopOnNonmatch := son, multiLine := ml, binary := .none }
+         , lineNumber := ln, stopOnNonmatch := son, multiLine := ml, binary := bin }
   | _ => none
 
 /-- index of the first occurrence of `needle` in `h` (the empty needle occurs at 0) -/
